@@ -16,11 +16,11 @@ from .common import chunks
 
 ID = "C09"
 RULE = (
-    "H: 12 queries mixing cacheable sub-expressions (root- and context-rooted queries, constants, functions of them, nested "
+    "H: 14 queries mixing cacheable sub-expressions (root- and context-rooted queries, constants, functions of them, nested "
     "filters inside root paths) with per-node ones (current node, current key) x 2 documents that differ exactly in the cached "
     "part x 2 filter contexts x {caching on, off}: every history of depth<=4 with caching on (3 with caching off; all depth-5 histories of one query chosen by VERIF_SEED; thorough 6, and 7 for 3 queries) over the letters "
     "{open iterator on doc i, advance iterator j (<=3 live), findall(doc i), findall(doc i) under the other filter context, swap the two documents' contents in place, recompile, findall in the other caching mode}; every "
-    "observation equals a fresh compile evaluated once on a deep copy in a fresh non-caching environment; documents, filter "
+    "(HT: every history of depth<=3 (5) over {evaluate the JSON text of doc i, evaluate it as a file object, findall, open/advance one iterator}, the caller scribbling over everything a text evaluation returned); every observation equals a fresh compile evaluated once on a deep copy in a fresh non-caching environment; documents, filter "
     "contexts and the compiled query's public surface unchanged; TASK: 6 coroutine harnesses x {caching on, off}, <=1 (3) "
     "preemptions; THR: 4 two-thread harnesses, every schedule with <=1 (2) preemptions at call granularity, plus 200 free-running runs. "
     "state = distinct history or schedule; non-trivial = history advances an iterator after another evaluation started"
@@ -34,6 +34,9 @@ ASSUMPTIONS = [
 
 D1 = {"k": 1, "key": "p", "l": [1, 2], "a": [{"x": 1, "n": 2, "t": [7]}, {"x": 2, "n": 3, "t": []}, {"x": 3, "n": 1}], "o": {"p": 1, "q": 2, "r": 1}}
 D2 = {"k": 2, "key": "q", "l": [2], "a": [{"x": 1, "n": 2, "t": [7]}, {"x": 2, "n": 3, "t": []}, {"x": 3, "n": 1}], "o": {"p": 1, "q": 2, "r": 1}}
+# 'm': subjects and patterns for match()/search(); D1 holds a valid pattern, D2 the same invalid pattern twice in a row
+D1["m"] = [{"s": "x", "re": "x"}, {"s": "xy", "re": "x."}]
+D2["m"] = [{"s": "x", "re": "("}, {"s": "x", "re": "("}, {"s": "x", "re": "x"}]
 DOCS = [D1, D2]
 CTX = [{"lim": 1}, {"lim": 2}]
 QUERIES = [
@@ -42,6 +45,8 @@ QUERIES = [
     "$.a[?@.x == $.k] | $.l[?@ == _.lim]",
     # a per-node path whose nested filter is itself cacheable (references only $ / constants)
     "$.a[?@.t[?$.k == 1]]", "$.a[?count(@.t[?$.k == 1 || 1 == 1]) == @.x]",
+    # regular-expression functions whose pattern comes from the document (the function objects are shared by the environment)
+    "$.m[?match(@.s, @.re)]", "$.m[?search(@.s, @.re) || match(@.re, $.key)]",
 ]
 PROBE = {"k": 3, "key": "r", "l": [3, 3, 3], "a": [{"x": 3, "n": 3}, {"x": 1, "n": 1}], "o": {"r": 5}}
 
@@ -90,6 +95,8 @@ def plan(tier, seed):
             for first in range(N_FIRST):
                 for second in range(11):
                     shards.append(("H6", qi, True, first, second, 7))
+    for qi in range(len(QUERIES)):
+        shards.append(("HT", qi, 3 if tier == "quick" else 5))
     for hi in range(len(task_harnesses())):
         for caching in (True, False):
             shards.append(("TASK", hi, caching, 1 if tier == "quick" else 3))
@@ -162,6 +169,26 @@ def run_shard(shard, acc):
         else:
             st2 = st
         _enum(st2, [[op, arg], [op2, arg2]], depth, lambda h: _history(qi, caching, h, acc))
+    elif kind == "HT":
+        # documents given as JSON text / file objects: what an evaluation returns belongs to the caller, who may edit it
+        import itertools
+
+        _, qi, depth = shard
+        lt = [("text", 0), ("text", 1), ("file", 0), ("findall", 0), ("open", 0), ("adv", 0)]
+        for caching in (True, False):
+            for n in range(1, depth + 1):
+                for h in itertools.product(lt, repeat=n):
+                    live = 0
+                    ok = True
+                    for op, arg in h:
+                        if op == "open":
+                            live += 1
+                            if live > 1:
+                                ok = False
+                        elif op == "adv" and live == 0:
+                            ok = False
+                    if ok:
+                        _history(qi, caching, [list(x) for x in h], acc, sub="HT")
     elif kind == "TASK":
         _, hi, caching, bound = shard
         _tasks(hi, caching, bound, acc)
@@ -183,7 +210,24 @@ def _env(caching):
     return _ENVS[caching]
 
 
-def _history(qi, caching, hist, acc, record=True):
+def _scribble(values, root):
+    """The caller edits what an evaluation of a JSON text returned (its own parse product)."""
+    for v in values:
+        if isinstance(v, dict):
+            v["scribble"] = 1
+        elif isinstance(v, list):
+            v.append("scribble")
+    if isinstance(root, dict):
+        for k in list(root):
+            if isinstance(root[k], list):
+                root[k].insert(0, "scribble")
+            elif isinstance(root[k], dict):
+                root[k]["scribble"] = 1
+            else:
+                root[k] = "scribble"
+
+
+def _history(qi, caching, hist, acc, record=True, sub="H"):
     text = QUERIES[qi]
     ci = qi % 2
     env = _env(caching)
@@ -224,6 +268,19 @@ def _history(qi, caching, hist, acc, record=True):
                 if got != reference(text, content[arg], ci) or [g[0] for g in got] != [ckey(v) for v in p.findall(docs[arg], filter_context=ctx)]:
                     bad = ("step%d.findall" % si, reference(text, content[arg], ci), got)
                     break
+            elif op in ("text", "file"):
+                import io
+                import json
+
+                evaluated_since_open = True
+                t = json.dumps(docs[arg])
+                ms = list(p.finditer(t if op == "text" else io.StringIO(t), filter_context=ctx))
+                got = [(ckey(m.obj), m.path) for m in ms]
+                vals = p.findall(t if op == "text" else io.BytesIO(t.encode()), filter_context=ctx)
+                if got != reference(text, content[arg], ci) or [g[0] for g in got] != [ckey(v) for v in vals]:
+                    bad = ("step%d.findall-%s" % (si, op), reference(text, content[arg], ci), got)
+                    break
+                _scribble([m.obj for m in ms] + list(vals), ms[0].root if ms else None)
             elif op == "other":
                 evaluated_since_open = True
                 got = [(ckey(m.obj), m.path) for m in other.compile(text).finditer(docs[arg], filter_context=ctx)]
@@ -277,7 +334,7 @@ def _history(qi, caching, hist, acc, record=True):
     except Exception as e:  # noqa: BLE001
         bad = ("exception", "no exception", "%s: %s" % (type(e).__name__, e))
     if record:
-        acc.case("H", (qi, caching, tuple(map(tuple, hist))), outcome=(qi, len(hist)), nontrivial=nontrivial, trans=len(hist) + 2)
+        acc.case(sub, (qi, caching, tuple(map(tuple, hist))), outcome=(qi, len(hist)), nontrivial=nontrivial or sub == "HT", trans=len(hist) + 2)
         for op, _ in hist:
             acc.count("H." + op)
         if nontrivial:
